@@ -4,6 +4,7 @@ import (
 	"bytes"
 	"encoding/json"
 	"fmt"
+	"reflect"
 	"sort"
 	"strings"
 
@@ -364,6 +365,32 @@ func init() {
 				return nil
 			})
 			r.Case(L(I(2), I(bs), cv), got, "batches", nc >= 2)
+			// every batch, in every format, is the export of exactly its chunks by a fresh exporter
+			for _, bf := range []rag.ExportFormat{rag.ExportFormatCSV, rag.ExportFormatTSV, rag.ExportFormatJSONL, rag.ExportFormatJSON} {
+				bcfg := cfg
+				bcfg.Format = bf
+				if bf == rag.ExportFormatCSV {
+					bcfg.CSVDelimiter = ','
+				}
+				if bf == rag.ExportFormatTSV {
+					bcfg.CSVDelimiter = '\t'
+				}
+				okEach := true
+				why := ""
+				berr := rag.NewBatchExporterWithConfig(bs, bcfg).Export(chunks, func(b rag.ExportBatch) error {
+					if b.StartIndex < 0 || b.StartIndex+b.ChunkCount > nc {
+						okEach, why = false, "batch bounds"
+						return nil
+					}
+					want, werr := rag.NewExporterWithConfig(bcfg).ExportToString(chunks[b.StartIndex : b.StartIndex+b.ChunkCount])
+					if werr != nil || want != b.Data {
+						okEach = false
+						why = fmt.Sprintf("batch starting at %d: %q, its chunks exported on their own: %q", b.StartIndex, b.Data, want)
+					}
+					return nil
+				})
+				r.Check(berr == nil && okEach, "batch-is-export-of-its-chunks", fmt.Sprintf("format %v, batch size %d: %s", bf, bs, why), L(I(2), I(bs), cv))
+			}
 			r.Check(err == nil && okB && cover == nc, "batches-partition", fmt.Sprintf("batches of size %d do not partition %d chunks", bs, nc), L(I(2), I(bs), cv))
 			// ---- stream
 			var sb bytes.Buffer
@@ -438,6 +465,39 @@ func init() {
 				}
 			}
 			r.Check(okV, "vectordb-records", "a vector-database export is not one well-formed record per chunk with the same id and text", cv)
+			// a record depends on its own chunk only: exported alone, the chunk gives the same record
+			if okV && nc >= 2 {
+				same := true
+				why := ""
+				wlines := strings.Split(strings.TrimRight(wb.String(), "\n"), "\n")
+				px, _ := parseJSON(pb.Bytes())
+				pvs, _ := px.(map[string]interface{})["vectors"].([]interface{})
+				cx, _ := parseJSON(cb.Bytes())
+				cmeta, _ := cx.(map[string]interface{})["metadatas"].([]interface{})
+				for i := range chunks {
+					var p1, c1, w1 bytes.Buffer
+					one := rag.NewEmbeddingExporter()
+					one.ExportForPinecone(chunks[i:i+1], emb[i:i+1], &p1)
+					one.ExportForChroma(chunks[i:i+1], emb[i:i+1], &c1)
+					one.ExportForWeaviate(chunks[i:i+1], emb[i:i+1], "Doc", &w1)
+					wx, _ := parseJSON([]byte(strings.TrimSpace(w1.String())))
+					fx, _ := parseJSON([]byte(wlines[i]))
+					if !reflect.DeepEqual(wx, fx) {
+						same, why = false, fmt.Sprintf("Weaviate record %d: %s; alone: %s", i, wlines[i], strings.TrimSpace(w1.String()))
+					}
+					p1x, _ := parseJSON(p1.Bytes())
+					p1v, _ := p1x.(map[string]interface{})["vectors"].([]interface{})
+					if len(p1v) != 1 || i >= len(pvs) || !reflect.DeepEqual(p1v[0], pvs[i]) {
+						same, why = false, fmt.Sprintf("Pinecone record %d differs from the record of the chunk alone", i)
+					}
+					c1x, _ := parseJSON(c1.Bytes())
+					c1m, _ := c1x.(map[string]interface{})["metadatas"].([]interface{})
+					if len(c1m) != 1 || i >= len(cmeta) || !reflect.DeepEqual(c1m[0], cmeta[i]) {
+						same, why = false, fmt.Sprintf("Chroma metadata %d differs from the metadata of the chunk alone", i)
+					}
+				}
+				r.Check(same, "vectordb-record-of-its-chunk", why, cv)
+			}
 			// ---- filters
 			cc := rag.NewChunkCollection(chunks)
 			ids := func(c *rag.ChunkCollection) V {
